@@ -69,3 +69,16 @@ package rest
 //@   call WithPrevSecret#0: assert arg_secret == fr.jwt.prevSecret && len(fr.jwt.prevSecret) > 0
 //@   call verifier#0: assert az == fr.jwt.enabled
 //@   ensures calls(verifier) == old(calls(verifier)) + 1 && result == ret(verifier)
+
+// C18 signature verification per route group: the decrypters a group's verifier accepts are exactly those loaded from THAT
+// group's configured private keys, collected in a map of its own (nothing carried over from another group of the same server)
+//@ func (ng *engine) signatureVerifier
+//@   property C18
+//@   results f, err
+//@   loop 0: modifies mapof(decrypters)
+//@   loop 0: invariant decrypters != nil && forall(s.(string), implies(inDom(decrypters, s), exists(j.(int), 0 <= j && j < idx && signature.PrivateKeys[j].Fingerprint == s)))
+//@   call return#6: assert forall(s.(string), implies(inDom(decrypters, s), exists(j.(int), 0 <= j && j < len(signature.PrivateKeys) && signature.PrivateKeys[j].Fingerprint == s)))
+//@   allocates
+//@ func (ng *engine) signatureVerifier closure 2
+//@   property C18
+//@   call LimitContentSecurityHandler#*: assert arg_decrypters == decrypters && arg_tolerance == signature.Expiry && arg_strict == signature.Strict && arg_limitBytes == ng.conf.MaxBytes
